@@ -609,7 +609,9 @@ EXPLANATION = {'C04': (
     'transformation_quad(), conversion of an arbitrary moved frame for every family including one-sheet cones and '
     'tori with a general axis (re-classification of the frame), the glue of to_surface_mcnp with a transformation '
     'number for every mnemonic, normalize_transform (3/12/13 entries, m != 1 rejected), normalize_matrix dispatch '
-    'and normalize_matrix6. Bounded / sampled parts are listed under coverage.bounded.')}
+    'and the matrix completions normalize_matrix6 / normalize_matrix3 / normalize_matrix5 (proper rotation reproducing the '
+    'supplied entries, every position). adjust_matrix is sampled only. Bounded / sampled parts are listed under '
+    'coverage.bounded.')}
 ASSUMPTIONS = {'C04': [
     'MCNP TR semantics (specs): r_main = o + B r_aux with B = [[b1,b4,b7],[b2,b5,b8],[b3,b6,b9]], m = 1',
     'TRIPOLI-4 TRANSFORM k MATRIX t M read as x_main = M x_local + t (calibrated on the converter; only t = 0 occurs)',
@@ -644,6 +646,49 @@ class _NM3:
         yield 'one-row', {'matrix': [m[k] if k // 3 == i else None for k in range(9)]}
 
     def ensures(result, matrix):
+        yield 'reproduces-supplied-entries', reproduces(result, matrix)
+        yield from is_rotation_goals(result)
+
+
+@contract(TR.normalize_matrix3, props=['C04'], name='Transformation.normalize_matrix3[all-rows]')
+class _NM3P:
+    """One row given, any unit vector, in any of the three positions: the completion is a proper rotation that
+    reproduces the supplied row (both choices of the helper axis, |row . e_x| > 0.999 or not)."""
+    def cases(S):
+        for i in range(3):
+            yield f'row{i}-given', {'matrix': [S.real(f'm{k}') if k // 3 == i else None for k in range(9)]}
+
+    def requires(matrix):
+        r = [x for x in matrix if x is not None]
+        return r[0] * r[0] + r[1] * r[1] + r[2] * r[2] == 1
+
+    def ensures(result, matrix):
+        yield 'nine-entries', len(result) == 9
+        yield 'reproduces-supplied-entries', reproduces(result, matrix)
+        yield from is_rotation_goals(result)
+
+
+@contract(TR.normalize_matrix5, props=['C04'], name='Transformation.normalize_matrix5[all-rows-and-columns]')
+class _NM5P:
+    """One row and one column given (unit vectors sharing one entry), in any of the nine positions: the Eulerian
+    completion is a proper rotation that reproduces the five supplied entries."""
+    def cases(S):
+        for i in range(3):
+            for j in range(3):
+                yield f'row{i}+col{j}', {'matrix': [S.real(f'm{k}') if (k // 3 == i or k % 3 == j) else None
+                                                    for k in range(9)], 'i': i, 'j': j}
+
+    def call(matrix, i, j):
+        return TR.normalize_matrix5(matrix)
+
+    def requires(matrix, i, j):
+        row = [matrix[3 * i + c] for c in range(3)]
+        col = [matrix[3 * r + j] for r in range(3)]
+        return And(row[0] * row[0] + row[1] * row[1] + row[2] * row[2] == 1,
+                   col[0] * col[0] + col[1] * col[1] + col[2] * col[2] == 1)
+
+    def ensures(result, matrix, i, j):
+        yield 'nine-entries', len(result) == 9
         yield 'reproduces-supplied-entries', reproduces(result, matrix)
         yield from is_rotation_goals(result)
 
